@@ -60,7 +60,7 @@ Proof.
   assert (Hfrom : forall ws, In nt (emit_from (e_ident e) (e_name e) (c_lower (e_cab e)) ws) ->
             is_busb (e_cab e) = true -> (List.length ws <= List.length (c_wires (e_cab e)))%nat ->
             text_ok (snd (fst nt)) = true /\ big_index (fst (fst nt)) (snd (fst nt)) = false).
-  { intros ws Hi Hb Hlen. rewrite Hb in Hk. apply andb_true_iff in Hk as [Hbs Hmax]. apply N.leb_le in Hmax.
+  { intros ws Hi Hb Hlen. rewrite Hb in Hk. rename Hk into Hmax. apply N.leb_le in Hmax.
     destruct (emit_from_in _ _ _ _ _ Hi) as (i & w & -> & H1 & H2). cbn [fst snd]. split.
     - now apply text_ok_bit_name.
     - unfold big_index. rewrite bitname_inverse.
@@ -81,7 +81,7 @@ Proof.
   unfold cab_w. intros H.
   apply andb_true_iff in H as [H Hk]. apply andb_true_iff in H as [H _]. apply andb_true_iff in H as [_ Hne].
   destruct (is_busb (e_cab e)) eqn:Hb.
-  - right. apply andb_true_iff in Hk as [Hbs _]. repeat split; auto.
+  - right. repeat split; auto.
     intro E. rewrite E in Hne. discriminate.
   - left. apply andb_true_iff in Hk as [Hlo Hnb]. apply N.eqb_eq in Hlo.
     unfold is_busb in Hb. apply orb_false_iff in Hb as [Ha Hlen].
